@@ -6,77 +6,11 @@
   business of property C14, not of this file.)
 -/
 import Saltpack.Proofs.StreamLemmas
+import Saltpack.Model.ArmorWriter
 import Saltpack.Proofs.BasexWF
 
 namespace Saltpack.Proofs
 open Saltpack Saltpack.Stream
-
-/-! ## the state machine -/
-
-/-- `armorEncoderStream`.
-
-    `enc` is the BaseX encoder (`s.encoder`); its underlying writer is the
-    `bytes.Buffer` `s.buf`, which never fails: `enc.sink = []`.  The model of the
-    encoder records everything it has ever handed to its underlying writer in
-    `enc.written` (never reset), so `enc.written.flatten` is everything that was
-    ever appended to the `bytes.Buffer`; `buf` is the unread part of that
-    buffer (what `spaceAndOutputBuffer` has not yet taken with `Next`).  An
-    encoder call therefore appends to `buf` exactly the characters by which
-    `enc.written.flatten` has grown (`ArmState.feed`). -/
-structure ArmState where
-  par : Armor.Params
-  enc : EncState
-  buf : Bytes
-  nWords : Nat
-  ftr : Bytes
-  out : Bytes
-
-/-- `newArmorEncoderStream`: a fresh encoder over an empty buffer; `header + ". "`
-    is written to `encoded` -/
-def ArmState.init (par : Armor.Params) (hdr ftr : Bytes) : ArmState :=
-  { par := par, enc := { enc := par.enc }, buf := [], nWords := 0, ftr := ftr,
-    out := hdr ++ [Armor.period, Armor.space] }
-
-/-- `spaceAndOutputBuffer`: `for s.buf.Len() > BytesPerWord { buf := s.buf.Next(BytesPerWord);
-    s.nWords++; sep := ' ' or '\n' if s.nWords % WordsPerLine == 0; write buf; write sep }`.
-    Fuel = number of iterations allowed (`buf.length + 1` always suffices when
-    `0 < bytesPerWord`). -/
-def ArmState.spaceOut : (fuel : Nat) → ArmState → ArmState
-  | 0, s => s
-  | fuel + 1, s =>
-    if s.buf.length > s.par.bytesPerWord then
-      let word := s.buf.take s.par.bytesPerWord
-      let n := s.nWords + 1
-      let sep := if n % s.par.wordsPerLine = 0 then Armor.newline else Armor.space
-      ArmState.spaceOut fuel
-        { s with buf := s.buf.drop s.par.bytesPerWord, nWords := n, out := s.out ++ word ++ [sep] }
-    else s
-
-/-- the effect of an encoder call that leaves the encoder in state `e'`: what
-    the encoder has handed to its underlying writer during the call (the growth
-    of `written.flatten`) is appended to the `bytes.Buffer` -/
-def ArmState.feed (s : ArmState) (e' : EncState) : ArmState :=
-  { s with enc := e', buf := s.buf ++ e'.written.flatten.drop s.enc.written.flatten.length }
-
-/-- `Write(b)`: `s.encoder.Write(b)`, then `s.spaceAndOutputBuffer()` -/
-def ArmState.write (s : ArmState) (b : Bytes) : ArmState :=
-  let s1 := s.feed (s.enc.write b).2.2
-  ArmState.spaceOut (s1.buf.length + 1) s1
-
-/-- `Close()`: `s.encoder.Close()`, `s.spaceAndOutputBuffer()`, `lst := s.buf.Bytes()`
-    is written, `s.nWords++`, `pad` is `" "`/`"\n"` exactly when `len(lst) == BytesPerWord`,
-    then `pad + ". " + footer + ".\n"` -/
-def ArmState.close (s : ArmState) : ArmState :=
-  let s1 := s.feed s.enc.close.2
-  let s2 := ArmState.spaceOut (s1.buf.length + 1) s1
-  let lst := s2.buf
-  let n := s2.nWords + 1
-  let pad : Bytes :=
-    if lst.length = s2.par.bytesPerWord then
-      (if n % s2.par.wordsPerLine = 0 then [Armor.newline] else [Armor.space])
-    else []
-  { s2 with nWords := n,
-            out := s2.out ++ lst ++ pad ++ [Armor.period, Armor.space] ++ s2.ftr ++ [Armor.period, Armor.newline] }
 
 /-! ## the spacer is a bufferer with block size `bytesPerWord` -/
 
